@@ -274,7 +274,7 @@ def run(ctx):
           "late": [], "kw": [["lang", {"t": "str", "s": "en"}]], "lib_prefix": "lib", "include_version": True}
     ctx.guard(check_case, ctx, ex, witness={"case": ex})
     ctx.sample({"case": ex, "output": ht.HTMLDocument(*[gen.build(c) for c in strip_marks(ex["content"])], lang="en").render()["html"]})
-    for _ in range(ctx.budget(2500, 150000)):
+    for _ in range(ctx.budget(2500, 1500000)):
         case = rand_case(rng)
         ctx.guard(check_case, ctx, case, witness={"case": case})
         ctx.case(case, nontrivial=nontrivial(case))
